@@ -319,6 +319,11 @@ def fault_case(job, acc: Acc):
     elif special == "explicit_missing":
         root = build(sc)
         argv += ["--config", "does_not_exist.json"]
+    elif special == "explicit_missing_default_present":
+        # the named file is missing while a file with a default name exists (holding the command line's values, so
+        # that the option comparison below holds whether or not it is read): the user still has to be told
+        root = build(sc, json.dumps({"hover_language": "lang1", "max_line_length": 40}), config_name=".fortls")
+        argv += ["--config", "does_not_exist.json"]
     elif special == "unreadable":
         root = build(sc, '{"hover_language": "lang2"}')
         cfgp = os.path.join(root, ".fortlsrc")
@@ -370,7 +375,8 @@ def main(ctx):
     pairs = [(a, b) for a in OPTIONS for b in OPTIONS if a != b]
     pacc = core.pmap(pair_case, pairs, chunk=2, budget_s=120, label="C19/pairs")
     ctx.add_family("pairs", pacc, ordered_pairs=len(pairs))
-    faults = fault_files() + [("unreadable", "", True), ("directory_in_place", "", False), ("explicit_missing", "", True)]
+    faults = fault_files() + [("unreadable", "", True), ("directory_in_place", "", False), ("explicit_missing", "", True),
+              ("explicit_missing_default_present", "", True)]
     facc = core.pmap(fault_case, faults, chunk=2, budget_s=120, label="C19/faults")
     ctx.add_family("faults", facc)
 
@@ -387,6 +393,7 @@ def replay(rec):
         pair_case((a, b), acc)
     else:
         lab = c["fault"]
-        table = {f[0]: f for f in fault_files() + [("unreadable", "", True), ("directory_in_place", "", False), ("explicit_missing", "", True)]}
+        table = {f[0]: f for f in fault_files() + [("unreadable", "", True), ("directory_in_place", "", False), ("explicit_missing", "", True),
+              ("explicit_missing_default_present", "", True)]}
         fault_case(table[lab], acc)
     return [v.to_json("C19") for v in acc.violations] or None
